@@ -135,9 +135,16 @@ def obligations(tier):
                         vs = allv[Kn]
                         if backend != "numpy" and tier == "quick":
                             vs = vs[::7]
-                        for ci in range(0, len(vs), 32):
-                            obs.append({"name": "%s/%s_%s/o%d/L%d/K%d-all/%d" % (backend, fam, mode, order, L, Kn, ci // 32), "fn": "ob_kernel_many", "weight": 6,
-                                        "params": dict(backend=backend, fam=fam, mode=mode, L=L, start_list=[list(v) for v in vs[ci:ci + 32]], order=order, N=L + 3, stats=first, chunk=2)})
+                        for chunk in ((None, 2, 3) if backend == "numpy" else (None,)):
+                            for ci in range(0, len(vs), 32):
+                                obs.append({"name": "%s/%s_%s/o%d/L%d/K%d-all/chunk%s/%d" % (backend, fam, mode, order, L, Kn, chunk, ci // 32), "fn": "ob_kernel_many", "weight": 6,
+                                            "params": dict(backend=backend, fam=fam, mode=mode, L=L, start_list=[list(v) for v in vs[ci:ci + 32]], order=order, N=L + 3, stats=first, chunk=chunk)})
+                            if (chunk is not None and Kn == 3) or (chunk == 2 and Kn == 4):
+                                # the scatter statistic across chunk boundaries (K=3 split 2+1, K=4 split 2+2)
+                                sub = (vs if L == 1 else vs[::5]) if Kn == 3 else (vs[::3] if L == 1 else vs[::29])
+                                for ci in range(0, len(sub), 16):
+                                    obs.append({"name": "%s/%s_%s/o%d/L%d/K%d-M2/chunk%s/%d" % (backend, fam, mode, order, L, Kn, chunk, ci // 16), "fn": "ob_kernel_many", "weight": 12,
+                                                "params": dict(backend=backend, fam=fam, mode=mode, L=L, start_list=[list(v) for v in sub[ci:ci + 16]], order=order, N=L + 3, stats=["M2"], chunk=chunk)})
                 obs.append({"name": "%s/%s_%s/o%d/reuse" % (backend, fam, mode, order), "fn": "ob_reuse", "weight": 3,
                             "params": dict(backend=backend, fam=fam, mode=mode, L=3, starts=[1, 0], order=order, N=5)})
     seen, out = set(), []
